@@ -602,6 +602,8 @@ def _r19_4(run: Run, res: Resolver) -> None:
                             srcs = [v for st, v in FuncAnalysis(f2, res).assignments_to(n.args[0].id) if v is not None]
                             ok = bool(srcs) and all(isinstance(v, ast.Call) and ast.unparse(v.func).endswith("resolve_hermetic_standard") for v in srcs)
                             why = "path is the result of resolve_hermetic_standard"
+                        if not ok and n.args and isinstance(n.args[0], ast.Call) and ast.unparse(n.args[0].func).endswith("resolve_hermetic_standard"):
+                            ok, why = True, "path is the result of resolve_hermetic_standard (called in place)"
                         run.instance("R19.4", f2.module.loc(n), f"{f2.qualname}: load_schema({norm(n.args[0]) if n.args else ''}) - {why}", ok=ok)
                         if not ok:
                             run.violation("R19.4", f2.module, f2.qualname, n, "load_schema (which opens whatever path it is given) is called with a path that is neither built by load_schema_by_name/load_builtin_schemas nor returned by resolve_hermetic_standard")
